@@ -18,20 +18,22 @@ impl<'a, S: ?Sized> ServiceCtx<'a, S> {
     pub fn new() -> Self {
         ServiceCtx(PhantomData)
     }
-    pub async fn ready<T, R>(&self, svc: &'a T) -> Result<(), T::Error>
+    pub fn ready<T, R>(&self, svc: &'a T) -> impl std::future::Future<Output = Result<(), T::Error>>
     where
         T: Service<R>,
     {
-        svc.ready(ServiceCtx(PhantomData)).await
+        svc.ready(ServiceCtx(PhantomData))
     }
-    /// as in ntex-service 4.6: wait for readiness, then call
-    pub async fn call<T, R>(&self, svc: &'a T, req: R) -> Result<T::Response, T::Error>
+    /// ntex-service 4.6 waits for readiness of `svc`, then calls it. The wrapped services of the
+    /// harnesses are always ready, so the readiness wait is a no-op and is left out of the model
+    /// (every nested coroutine layer multiplies the size of the encoding); not a `async fn` for
+    /// the same reason: the callee's future is returned as is
+    pub fn call<T, R>(&self, svc: &'a T, req: R) -> impl std::future::Future<Output = Result<T::Response, T::Error>>
     where
         T: Service<R>,
         R: 'a,
     {
-        self.ready(svc).await?;
-        svc.call(req, ServiceCtx(PhantomData)).await
+        svc.call(req, ServiceCtx(PhantomData))
     }
 }
 
@@ -47,17 +49,18 @@ impl<S> Pipeline<S> {
     pub fn get_ref(&self) -> &S {
         &self.svc
     }
-    pub async fn ready<R>(&self) -> Result<(), S::Error>
+    pub fn ready<R>(&self) -> impl std::future::Future<Output = Result<(), S::Error>>
     where
         S: Service<R>,
     {
-        ServiceCtx::<'_, S>::new().ready(&self.svc).await
+        self.svc.ready(ServiceCtx(PhantomData))
     }
-    pub async fn call<R>(&self, req: R) -> Result<S::Response, S::Error>
+    /// the caller (io.rs poll_service) polls readiness before every call; the harnesses do the same
+    pub fn call<R>(&self, req: R) -> impl std::future::Future<Output = Result<S::Response, S::Error>>
     where
         S: Service<R>,
     {
-        ServiceCtx::<'_, S>::new().call(&self.svc, req).await
+        self.svc.call(req, ServiceCtx(PhantomData))
     }
 }
 #[macro_export]
